@@ -612,7 +612,11 @@ def shell_free_with_fields(prog, rule, functions, may_oom):
                             continue
 
                         def holds(e, cid=c2.get("id")):
-                            return any(y.get("id") == cid for y in walk(e))
+                            e = strip(e)
+                            if e.get("id") == cid:
+                                return True
+                            # `(r = f(...))` compared with a constant
+                            return e.get("k") == "asg" and strip(e.get("rhs")).get("id") == cid
                         z = cfgq.zero_test(cnd, holds)
                         if z is None:
                             continue
@@ -632,4 +636,125 @@ def shell_free_with_fields(prog, rule, functions, may_oom):
                 else:
                     rule.ok(key, "the shell free is reachable with the field still owned only through failures of reads from the stored "
                             "blob (corrupt data: outside the property's preconditions), not through a call that can run out of memory")
+    return n
+
+
+# ------------------------------------------------------------------------------------------------ copy correspondence
+DUPS = ("strdup", "cif_u_strdup", "cif_u_strndup")
+
+
+def dup_field_correspondence(prog, rule):
+    """`a->F = dup(b->G)` with a and b different objects of the same record type copies field G of one object into field F
+    of another: F and G must be the same field (a deep copy that crosses fields silently replaces one attribute by another).
+    Returns the number of such stores judged."""
+    n = 0
+    for fn in prog.all_functions():
+        for (b, i, r, a) in fn.eval_sites("asg"):
+            l = strip(a.get("lhs"))
+            rr = strip(a.get("rhs"))
+            if not isinstance(l, dict) or l.get("k") != "member" or a.get("op") != "=":
+                continue
+            if not (isinstance(rr, dict) and rr.get("k") == "call" and rr.get("callee") in DUPS and rr.get("args")):
+                continue
+            src = strip(rr["args"][0])
+            if not isinstance(src, dict) or src.get("k") != "member":
+                continue
+            lb, sb_ = strip(l.get("base")), strip(src.get("base"))
+            lt, st_ = (lb.get("t") or "").replace("const ", "").strip(), (sb_.get("t") or "").replace("const ", "").strip()
+            if not lt or lt != st_:
+                continue
+            if path(lb) == path(sb_):
+                continue        # same object: re-allocation of its own field
+            n += 1
+            key = "%s:%s=dup(%s)" % (fn.name, path(l), path(src))
+            if l.get("name") == src.get("name"):
+                rule.ok(key, "same field")
+            else:
+                rule.violation(fn.file, fn.name, a.get("l"), "copy-crosses-fields:%s:%s<-%s" % (fn.name, l.get("name"), src.get("name")),
+                               "`%s` receives a copy of `%s`: the copy of one %s takes field `%s` from field `%s` of the original, so the "
+                               "copy's `%s` no longer equals the original's" % (path(l), path(src), lt, l.get("name"), src.get("name"), l.get("name")))
+    return n
+
+
+def keep_or_replace(prog, rule):
+    """Idiom `v = (changed == 0) ? e->F : fresh; ... e->F = v;` (keep the stored attribute or replace it): the comparison that
+    defines `changed` must be made against e->F itself - comparing against another field decides about F with the wrong
+    evidence.  Returns the number of idiom instances judged."""
+    n = 0
+    for fn in prog.all_functions():
+        for (b, i, r, d) in fn.eval_sites():
+            v, init = None, None
+            if d.get("k") == "decl":
+                for var in d.get("vars", []):
+                    if var.get("init") is not None and strip(var["init"]).get("k") == "cond":
+                        v, init = var["name"], strip(var["init"])
+            elif d.get("k") == "asg" and d.get("op") == "=" and isinstance(strip(d.get("rhs")), dict) and strip(d.get("rhs")).get("k") == "cond":
+                v, init = path(strip(d.get("lhs"))), strip(d.get("rhs"))
+            if not v or init is None:
+                continue
+            arms = [strip(init.get("then")), strip(init.get("else"))]
+            keep = [x for x in arms if isinstance(x, dict) and x.get("k") == "member"]
+            fresh = [x for x in arms if isinstance(x, dict) and x.get("k") == "call" and x.get("callee") in DUPS]
+            if len(keep) != 1 or len(fresh) != 1:
+                continue
+            kept = keep[0]
+            # is the kept field later stored from v ?
+            stored = [a for (b2, i2, r2, a) in fn.eval_sites("asg") if path(strip(a.get("lhs"))) == path(kept) and path(strip(a.get("rhs"))) == v]
+            if not stored:
+                continue
+            cvars = {path(x) for x in walk(init.get("c")) if x.get("k") == "ref" and path(x)}
+            cmp_fields = []
+            for (b2, i2, r2, a) in fn.eval_sites("asg"):
+                if path(strip(a.get("lhs"))) in cvars:
+                    for x in walk(a.get("rhs")):
+                        if x.get("k") == "call" and x.get("callee") in ("u_strcmp", "u_strncmp", "strcmp", "u_strcasecmp", "memcmp"):
+                            for arg in x.get("args", [])[:2]:
+                                sa = strip(arg)
+                                if isinstance(sa, dict) and sa.get("k") == "member" and path(strip(sa.get("base"))) == path(strip(kept.get("base"))):
+                                    cmp_fields.append((sa.get("name"), x))
+            if not cmp_fields:
+                continue
+            n += 1
+            key = "%s:%s" % (fn.name, path(kept))
+            wrong = [(f, x) for (f, x) in cmp_fields if f != kept.get("name")]
+            if wrong:
+                f, x = wrong[0]
+                rule.violation(fn.file, fn.name, x.get("l"), "keep-or-replace-wrong-field:%s:%s" % (fn.name, kept.get("name")),
+                               "whether `%s` is kept or replaced (L%s) is decided by comparing the new string with `%s->%s` (L%s), not with "
+                               "`%s` itself: when the new spelling equals that other field the stored `%s` is kept although it differs"
+                               % (path(kept), d.get("l"), path(strip(kept.get("base"))), f, x.get("l"), path(kept), kept.get("name")))
+            else:
+                rule.ok(key, "decided by comparison with the field itself")
+    return n
+
+
+def realloc_self_assign(prog, rule):
+    """`p = realloc(p, n)`: when realloc fails the only pointer to the old block is overwritten with NULL - the block leaks
+    and the object that held it is left with a NULL pointer and its old size.  The result must go to a temporary that is
+    tested first.  Returns the number of realloc sites judged."""
+    n = 0
+    for fn in prog.all_functions():
+        for (b, i, r, x) in fn.eval_sites():
+            tgt, call = None, None
+            if x.get("k") == "asg" and x.get("op") == "=":
+                rr = strip(x.get("rhs"))
+                if isinstance(rr, dict) and rr.get("k") == "call" and rr.get("callee") == "realloc":
+                    tgt, call = path(strip(x.get("lhs"))), rr
+            elif x.get("k") == "decl":
+                for v in x.get("vars", []):
+                    rr = strip(v.get("init")) if v.get("init") is not None else None
+                    if isinstance(rr, dict) and rr.get("k") == "call" and rr.get("callee") == "realloc":
+                        tgt, call = v["name"], rr
+            if call is None or not call.get("args"):
+                continue
+            n += 1
+            src = path(strip(call["args"][0]))
+            key = "%s:%s=realloc(%s)" % (fn.name, tgt, src)
+            if tgt is not None and tgt == src:
+                rule.violation(fn.file, fn.name, call.get("l"), "realloc-overwrites-source:%s:%s" % (fn.name, tgt),
+                               "`%s = realloc(%s, ...)`: if the re-allocation fails, NULL replaces the only pointer to the old block "
+                               "(which is still allocated): the block leaks and `%s` is left NULL while its owner still records the "
+                               "old size" % (tgt, src, tgt))
+            else:
+                rule.ok(key, "result goes to a separate variable")
     return n
